@@ -159,6 +159,23 @@ def confirm(sc: Scratch, prep: dict, r: HarnessResult, log_dir: Path) -> dict:
             return {"reproduced": True, "replay": str(rep), "role": role, "detail": detail}
         if rep != first:
             rep.unlink(missing_ok=True)
+    # a budget above the limit only shows on a body between the two sizes: deliver N + 1 bytes in one frame,
+    # without a Content-Length header (N taken from the concrete inputs the native search found)
+    if "byte budget" in role:
+        for tr in finds:
+            recs = [l for l in tr if l.get("kind") == "c14" and isinstance(l.get("limit"), int)]
+            if not recs or recs[0]["limit"] + 1 > (1 << 21):
+                continue
+            n = recs[0]["limit"]
+            script = {"limit": n, "header": None, "other_first": False, "frames": [[97] * (n + 1)], "error_at": None, "trailers": False,
+                      "_origin": {"harness": r.spec.name, "failed": role, "note": "body of limit + 1 bytes"}}
+            h = hashlib.sha256(json.dumps(script, sort_keys=True).encode()).hexdigest()[:12]
+            rep = rep_dir / f"{r.spec.name}-{h}.json"
+            rep.write_text(json.dumps(script) + "\n")
+            ok, detail = _native_replay(sc, rep, log_dir / f"{r.spec.name}.native.log")
+            if ok is True:
+                return {"reproduced": True, "replay": str(rep), "role": role, "detail": detail}
+            rep.unlink(missing_ok=True)
     if first is not None:
         return {"reproduced": False, "replay": str(first), "role": role,
                 "detail": f"{len(finds)} concrete failing inputs of the shim build do not misbehave on the real crate"}
